@@ -77,7 +77,9 @@ def decision_check(ctx, F, rule, sfx, which):
         ctx.ok(rule, '%s:table%s' % (which, sfx), '%d rows over %s agree' % (2 ** len(T.names), ','.join(T.names)), REQ_TXT[which], w)
     # every tetrahedron of a plane that has (or gets) a record is accumulated into it: the first one and all later ones (record already there).
     # Rows "record exists although the decision is skip" cannot occur (a record exists only where the decision was create) and are not constrained.
-    if s.collects:
+    if not s.collects:
+        ctx.bad(rule, '%s:every-tetrahedron-of-a-reported-plane-accumulated%s' % (which, sfx), 'the tetrahedron loop never hands a triangle to a face record (no collect call)', 'collect <=> plane reported', where(b), key_extra='no-collect')
+    else:
         Tc, rc = faces.reached_table(s, s.collects, raw=True)
         badc = []
         for env in Tc.rows():
